@@ -8,7 +8,7 @@ set -e
 REPO=$1; OUT=$2; CFG=$3; shift 3
 mkdir -p "$OUT"
 VERIF_DIR=$(cd "$(dirname "$0")/.." && pwd)
-T="$VERIF_DIR/.cache/target-shared"
+T="${VERIF_TARGET_DIR:-$VERIF_DIR/.cache/target-shared}"          # (the matrix runs give every worker a copy of its own: the lock below serialises the builds of one directory)
 mkdir -p "$T"
 exec 9>"$T/.lock"
 flock 9
